@@ -61,7 +61,9 @@ theorem entry_valuesOfW (W : List (List K)) (k i : Nat) (w : List K) (hw : W[i]?
   · rename_i hK
     rw [hK] at hlen
     have : sortDesc w = [] := List.eq_nil_of_length_eq_zero (by omega)
-    simp [Values.entry, Values.rows, kth, this]
+    cases k with
+    | zero => simp [Values.entry, Values.rows, kth, this, List.getD_eq_getElem?_getD, hi]
+    | succ k => simp [Values.entry, Values.rows, kth, this]
   · rename_i hK
     by_cases hk : k < ((W.map sortDesc).map List.length).foldl max 0
     · simp only [Values.entry, Values.rows]
@@ -86,6 +88,56 @@ theorem rows_valuesOfW_length (W : List (List K)) : ∀ row ∈ (valuesOfW W).ro
     simp only [Values.rows, List.mem_map] at hrow
     obtain ⟨k, _, rfl⟩ := hrow
     simp
+
+/-- the values array always has at least one row (`max_depth ≥ 1`) -/
+theorem rows_valuesOfW_ne_nil (W : List (List K)) : (valuesOfW W).rows ≠ [] := by
+  unfold valuesOfW
+  simp only
+  split
+  · simp [Values.rows]
+  · rename_i hK
+    simp only [Values.rows, ne_eq, List.map_eq_nil_iff, List.range_eq_nil]
+    exact hK
+
+theorem foldl_max_eq_zero (l : List Nat) (h : ∀ x ∈ l, x = 0) : l.foldl max 0 = 0 := by
+  induction l with
+  | nil => rfl
+  | cons a t ih =>
+    have ha : a = 0 := h a (by simp)
+    subst ha
+    simpa using ih (fun x hx => h x (by simp [hx]))
+
+/-- no node received a value: ONE zero row -/
+theorem valuesOfW_all_nil (W : List (List K)) (h : ∀ w ∈ W, w = []) :
+    (valuesOfW W).rows = [List.replicate W.length 0] := by
+  unfold valuesOfW
+  simp only
+  rw [if_pos]
+  · rfl
+  · apply foldl_max_eq_zero
+    intro x hx
+    simp only [List.map_map, List.mem_map, Function.comp_apply] at hx
+    obtain ⟨w, hw, rfl⟩ := hx
+    rw [h w hw]
+    simp [sortDesc]
+
+/-- some node received a value: the rows are the `K = max len` padded rows (no extra zero row) -/
+theorem valuesOfW_rows_length (W : List (List K)) :
+    (valuesOfW W).rows.length = max 1 ((W.map List.length).foldl max 0) := by
+  have hlen : (W.map sortDesc).map List.length = W.map List.length := by
+    rw [List.map_map]
+    apply List.map_congr_left
+    intro w _
+    simp [sortDesc]
+  unfold valuesOfW
+  simp only
+  rw [hlen]
+  split
+  · rename_i hK
+    simp [Values.rows, hK]
+  · rename_i hK
+    simp only [Values.rows, List.length_map, List.length_range]
+    omega
 
 theorem flatMap_filter_singleton {β : Type} (l : List β) (f : β → K) (q : K → Bool) :
     (l.flatMap fun p => [f p].filter q) = (l.map f).filter q := by
